@@ -286,7 +286,9 @@ PROPS["C14"] = dict(
     level_text="the kernel is transcribed in Gallina (Kern2.v) and compared with the implementation on every observation; the "
                "property itself (k+1 consecutive segments, positions under the cell id, both sides glued, everything else "
                "and the null dart untouched, error clauses) is an executable Coq predicate applied to every implementation "
-               "observation; proved: atomicity of failures only",
+               "observation; proved for all inputs: atomicity of failures, and the well-formedness clause (C14_insertion_keeps_wf2, "
+               "Map2/KernWf.v: on every well-formed map, every in-use edge dart and every list of distinct in-use spare darts, an "
+               "insertion that terminates normally leaves a well-formed map)",
     technique="Coq model of the kernel + correspondence + extracted Coq specification as per-run validator",
     families=[
         Family("kern-insert", "core2", r_kern("insert", 1500, 30000), 1, [(7, "insert_spec", INS_CLASSES)]),
